@@ -72,10 +72,13 @@ CHECKS = {
          "Struct type graphs to depth 4 (embedding via the embed option, Go embedding of generated and declared structs by value/pointer/unexported, reuse along several paths, forced name collisions across and within depths, > 64 and > 128 fields, fallbacks) under 5 option sets: the marshaled member names, order and sentinels must equal the model's list; every probe name (exact, case and delimiter variants, unknown) must be stored into the model's field or fail with the model's error class (ambiguous, unknown); omitzero/omitempty/string must take effect on exactly the flagged fields when their documented condition holds. The one disagreement with the documented rules found on this tree (diamond embedding, F6) is a recorded known finding matched by its exact shape.",
          "trusted base: ref.ModelStruct, a reading of the package documentation, not a transcription of fields.go",
          "DESIGN.md §4 C15"),
+ "C04": ("exploration", "round-trip runtime monitor: Marshal -> Unmarshal -> Marshal on generated typed values (byte fixed point, second-round fixed point under omit options, Go equality modulo the documented non-injective encodings) plus an independent 'representation' oracle (math/big, time.Format, RFC 4648 of the toolchain) on every alternative representation; all 2^32 float32 bit patterns in the thorough tier",
+         "Reflect-built types (nesting <= 6, up to 140 fields, escaped names, every tag option where documented) x boundary-dense values x 26 symmetric option sets: Unmarshal must accept Marshal(v), re-marshaling must reproduce the bytes (one more round under omitzero/omitempty), and where equality is meaningful the decoded value must equal v (floats by bits, full 64-bit integers, times by instant+offset or by what the layout carries; a pointer equals nil iff both encode as null). Dedicated sweeps per alternative representation (quoted numbers, numeric map keys, 7 byte formats, 18+ time layouts incl. unix*, 6 duration formats) additionally check that the first output denotes the value exactly, so formatter and parser errors that cancel cannot hide. float32: every bit pattern (thorough), every 509th (quick).",
+         "trusted base: math/big, the toolchain's time.Format/Parse and encoding/base32,64,hex for the representation oracle; equality relation = kernel of the documented encoding (nil/empty containers, pointers whose target encodes as null)",
+         "DESIGN.md §4 C04"),
 }
 
 NOT_YET = {
- "C04": "monitor built (cmd/c04) but it still raises alarms on the unchanged tree that are being triaged (oracle vs library); not claimed until silent or the findings are recorded",
  "C09": "monitor built (cmd/c09) but its divergence reports on the unchanged tree are still being triaged into fixes / known findings; not claimed until then",
  "C18": "monitor built (cmd/c18, race build) but too slow and not yet silent on the unchanged tree; not claimed until then",
 }
